@@ -267,6 +267,10 @@ pub(crate) fn c06_history<S: SubjApi>(nops: usize) {
       if !subj.s_is_empty() || subj.s_len() != 0 {
         e::fail(&format!("{}/not-empty-after-terminal", S::name()), || format!("len() == {} / is_empty() == {} after a terminal / unsubscribe()", subj.s_len(), subj.s_is_empty()));
       }
+      // the Subscription-side report of "finished" (anchors.observe_at lists is_closed next to is_finished)
+      if !subj.s_is_closed() || !clone2.s_is_closed() {
+        e::fail(&format!("{}/not-closed-after-terminal", S::name()), || "is_closed() == false after a terminal / unsubscribe() (is_finished() == true)".to_string());
+      }
     }
   }
   for i in 0..NS {
@@ -500,14 +504,16 @@ pub(crate) fn c12_history<B: BehApi>(nops: usize) {
         clones.push(c);
       }
       3 => {
-        if used >= NS || done {
+        if used >= NS {
           break 'ops;
         }
         let i = used;
         used += 1;
-        e::note(format!("c{}.subscribe s{}", which, i));
+        e::note(format!("c{}.subscribe s{}{}", which, i, if done { " (after the terminal)" } else { "" }));
         unsubs[i] = Some(clones[which].sub(probes[i]));
-        active[i] = true;
+        // "a new subscriber first receives the most recent value": also one that joins after a terminal
+        // (it then gets nothing more: the inner subject is closed)
+        active[i] = !done;
         want[i].push(Ev::Next(cur.clone()));
       }
       4 => {
